@@ -53,7 +53,7 @@ def _in_domain(tokens, table):
 class Judge(object):
     def __init__(self, ctx):
         self.ctx = ctx
-        self.sf = env.load_selfies()
+        self.sf = env.varied(env.load_selfies(), ctx)
         self.table = None
         self.tname = None
 
@@ -120,7 +120,7 @@ class Judge(object):
 
 
 def run(ctx):
-    sf = env.load_selfies()
+    sf = env.varied(env.load_selfies(), ctx)
     hooks.attach_m1()
     hooks.attach_m2(table_fn=sf.get_semantic_constraints)
     hooks.attach_m3(use_icontract=False)
